@@ -84,6 +84,7 @@ pub const POISON_KINDS: &[&str] = &[
     "ans_unrelated_owner",
     "ans_offpath_cname",
     "ans_cname_fan",
+    "ans_cname_fan_first",
     "ans_soa",
     "ans_wrong_type",
     "ans_dup",
@@ -595,6 +596,15 @@ impl UniverseNet {
                         self.tagged_a(&t, 300)
                     };
                     resp.answers.push(forged);
+                }
+            }
+            "ans_cname_fan_first" => {
+                // a decoy alias with the owner of the reply's first real alias,
+                // listed before it
+                if let Some(RecordTypeWithData::CNAME { .. }) = resp.answers.first().map(|r| &r.rtype_with_data) {
+                    let owner = resp.answers[0].name.to_dotted_string();
+                    let t = self.next_tag();
+                    resp.answers.insert(0, rr(&owner, &format!("CNAME decoy{t}.evil.invalid."), 300));
                 }
             }
             "ans_soa" => {
